@@ -111,6 +111,36 @@ func buildLck(w *World) *lckWorld {
 		})
 	}
 	l.immut = immutableFields(l.all)
+	// structs with more than one mutex: which mutex keeps which field
+	for _, g := range l.classes {
+		if len(g.MuFields) < 2 {
+			continue
+		}
+		g.Guard = map[string]string{}
+		held := map[string]map[string]int{}
+		for _, a := range l.all {
+			if a.Class != g.Name || a.Local {
+				continue
+			}
+			for _, mu := range g.MuFields {
+				if l.la[a.Fn].before[a.In][a.Base+"."+mu] >= modeR {
+					if held[a.Field] == nil {
+						held[a.Field] = map[string]int{}
+					}
+					held[a.Field][mu]++
+				}
+			}
+		}
+		for f, m := range held {
+			best, bestN := g.MuField, m[g.MuField]
+			for _, mu := range g.MuFields {
+				if m[mu] > bestN {
+					best, bestN = mu, m[mu]
+				}
+			}
+			g.Guard[f] = best
+		}
+	}
 	lckCache[w] = l
 	return l
 }
@@ -189,7 +219,7 @@ func ruleGuardedBy(r *Run, rule string) {
 					continue
 				}
 			}
-			need := a.Base + "." + l.classes[a.Class].MuField
+			need := a.Base + "." + l.classes[a.Class].guardOf(a.Field)
 			mode := modeR
 			what := "read"
 			if a.Write {
@@ -297,7 +327,7 @@ func ruleGuardedBy(r *Run, rule string) {
 		guarded++
 		vs := byField[k]
 		if len(vs) == 0 {
-			r.Ok(rule, "guarded:"+k, "-", fmt.Sprintf("%d accesses, each under the required mode of %s.%s (directly or through every call site of its helper)", nAcc[k], strings.Split(k, ".")[0], l.classes[strings.Split(k, ".")[0]].MuField))
+			r.Ok(rule, "guarded:"+k, "-", fmt.Sprintf("%d accesses, each under the required mode of %s.%s (directly or through every call site of its helper)", nAcc[k], strings.Split(k, ".")[0], l.classes[strings.Split(k, ".")[0]].guardOf(strings.SplitN(k, ".", 2)[1])))
 			continue
 		}
 		seen := map[string]bool{}
